@@ -1,7 +1,7 @@
 /-
 C02 kernel slice, lemmas part d: the guards hold whenever every integer involved is within ±2^53 (where float64 is
-exact) — what remains excluded after the C02 repairs is exactly the magnitude classes, the latent unsigned-vs-negative
-class and numeric strings.  Core Lean only.
+exact) — what remains excluded after the C02 repairs is exactly the magnitude classes and the latent unsigned-vs-negative
+class (numeric strings are compared by value since repair c02-4).  Core Lean only.
 -/
 import SigModel.Lemmas.C02Kc
 
